@@ -506,7 +506,7 @@ def parent_main(prop, tier, seed, replay=None, shards=None):
         log = open(os.path.join(work, f"shard{i}.log"), "w")
         procs.append((i, out, subprocess.Popen(cmd, env=env_i, stdout=log, stderr=subprocess.STDOUT, cwd=ROOT), log))
     results, harness_errors = [], []
-    hard_limit = BUDGET[tier] * WALL_FACTOR + 180
+    hard_limit = float(os.environ.get("VERIF_BUDGET", BUDGET[tier])) * WALL_FACTOR + 180
     for i, out, p, log in procs:
         try:
             rc = p.wait(timeout=max(5.0, hard_limit - (time.monotonic() - t0)))
